@@ -37,9 +37,10 @@ T = {
          "correspondence on synthesized audio (bytes and bit-exact float start/end/duration)", "trusted: Coq kernel; " + REALS + "; " + CORR,
          "Rocq/Coq proof (composition of slicing lemmas) + correspondence"),
  "C06": ("split", "proof", "ms-grid exactness of the window counts by reflection on a finite grid (Flocq binary64, vm_compute lifted by forallb_forall); tolerance band lemma; accept <-> predicate",
-         "Duration.v mirrors _duration_to_nb_windows and the parameter block of split(); tied by bit-exact correspondence on the ms grid and on random doubles "
+         "Duration.v mirrors _duration_to_nb_windows and the parameter block of split(); tied on every run by translation (groups dur, split: _duration_to_nb_windows, _EPSILON and the program slice of "
+         "split() that decides the window counts, helpers flattened, proved equal to Duration.nbw / split_params for all float inputs: TieDur.v, TieSplit.v) and by bit-exact correspondence on the ms grid and on random doubles "
          "(directly and through which isolated bursts split() reports)", "trusted: Coq kernel (vm_compute for the finite grid); Flocq binary64; " + REALS + "; " + CORR,
-         "Rocq/Coq proof (reflection on a finite grid + Flocq error lemma) + bit-exact correspondence"),
+         "Rocq/Coq proof (reflection on a finite grid + Flocq error lemma) + translation tie + bit-exact correspondence"),
  "C07": ("energy", "proof", "integer decision procedure <-> 10*log10(mean square) >= threshold over the Reals; monotone in the threshold; PCM decode/deinterleave lemmas; "
          "partial: libm log10 in binary64 is not modelled - cases within 2^-35 of the boundary and not on it are counted as float_zone and not compared",
          "Audio/Energy.v, Pcm.v written by hand from signal.py / AudioEnergyValidator; tied by boundary-directed correspondence (exact ties, one LSB above/below, channel selectors)",
@@ -53,31 +54,37 @@ T = {
          "trusted: Coq kernel; no axioms for the framing theorems; Flocq binary64 for the duration->samples conversions; " + CORR,
          "Rocq/Coq proof (closed form by induction on the step function) + exhaustive small-scope correspondence"),
  "C11": ("source", "proof", "cursor machine refines 'successive slices of one byte string': invariant over all op sequences, read/position/seek/rewind/close laws, error cases leave the state unchanged",
-         "IO/Source.v written by hand from io.py's BufferAudioSource and file/stdin sources; tied by random + exhaustive short op sequences on buffer, raw-file, wav-file and stdin sources",
-         "trusted: Coq kernel; " + REALS + " (only for the seconds setters); " + CORR, "Rocq/Coq proof (invariant over operation histories) + op-sequence correspondence"),
+         "IO/Source.v written by hand from io.py's BufferAudioSource and file/stdin sources; tied on every run by translation (groups buf, fsrc: BufferAudioSource.read / position / position_ms and FileAudioSource.read with the raw, wave and stdin "
+         "_read_from_stream, proved equal to Source.bstep / fstep for all states and sizes: TieBuf.v, TieFsrc.v) and by random + exhaustive short op sequences on buffer, raw-file, wav-file and stdin sources (incl. megabyte sources and requests up to 2^64)",
+         "trusted: Coq kernel; " + REALS + " (only for the seconds setters); " + CORR, "Rocq/Coq proof (invariant over operation histories) + translation tie + op-sequence correspondence"),
  "C12": ("workers", "proof", "interleaving model of workers.py at queue-operation granularity: FIFO exactly-once invariant for every reachable state and schedule, final-state theorem (= numbered tokenization = split()), "
          "deadlock freedom and a strictly decreasing measure; partial: CPython queue.Queue internals, the GIL, real timeouts and OS scheduling are not modelled (Queue assumed a linearizable FIFO, join exact)",
-         "the REAL worker threads are run in lock-step under controlled schedules (random + stop injection); each recorded trace is replayed by the Coq trace monitor (Monitor.v, proved to accept only exec-reachable "
-         "states) and the real observables (observer logs, printed lines, files, thread liveness) are compared with the model state", "trusted: Coq kernel; no axioms; lock-step scheduler (rebinds auditok.workers.Queue, Worker.start/join); " + CORR,
-         "Rocq/Coq proof (invariant over all schedules + variant) + trace-monitor correspondence under controlled schedules"),
+         "the loop turn of Worker.run (every worker class), _stop_requested, TokenizerWorker.read and the queue/join/close order of TokenizerWorker.run, stop_all, Worker.stop, StreamSaverWorker.read are translated from workers.py on every run and proved equal to Conc/Loops.v "
+         "(TieLoops.v; Loops.step_obs_is_run_turn links the loop turn to the model's observer step); the REAL worker threads are run in lock-step under controlled schedules (random + stop injection); each recorded trace is replayed by the Coq trace monitor (Monitor.v, proved to accept only exec-reachable "
+         "states) and the real observables (observer logs, printed lines, files, thread liveness) are compared with the model state", "trusted: Coq kernel; no axioms; translator harness/py2coq/loops.py; lock-step scheduler (rebinds auditok.workers.Queue, Worker.start/join); " + CORR,
+         "Rocq/Coq proof (invariant over all schedules + variant) + translation tie of the worker loops + trace-monitor correspondence under controlled schedules"),
  "C13": ("workers", "proof", "saver invariant written ++ cache ++ in-flight = blocks read for every schedule and every cache size; final file = blocks read; joiner bytes = join with round(silence*rate) zero samples; "
          "partial: file system and wave module exercised, not modelled; ffmpeg/sox export out of scope",
-         "controlled schedules with lagging writer and cache sizes {0, 1 byte, <block, =block, k*block, >stream}; files re-read and compared with the model (header included)",
-         "trusted: Coq kernel; no axioms for the interleaving theorems; lock-step scheduler; " + CORR, "Rocq/Coq proof (invariant over all schedules, cache size universally quantified) + trace-monitor correspondence + file comparison"),
+         "the writer and joiner methods (_process_message, _write_cached_data, one turn of _post_process's drain loop, _write_audio_event) and the worker loop are translated from workers.py on every run and proved equal to Conc/Savers.v / Loops.v (TieSavers.v, TieLoops.v; "
+         "Savers.step_sav_data_is_w_process links them to the interleaving model); controlled schedules with lagging writer and cache sizes {0, 1 byte, <block, =block, k*block, >stream, 4096 blocks}; files re-read and compared with the model (header included)",
+         "trusted: Coq kernel; no axioms for the interleaving theorems; lock-step scheduler; " + CORR, "Rocq/Coq proof (invariant over all schedules, cache size universally quantified) + translation tie of the writer methods + trace-monitor correspondence + file comparison"),
  "C14": ("workers", "proof", "stop at any point of any schedule: at exit detections = tokenization of the k blocks read, every observer has exactly them, saver file = those k blocks; a stop from any reachable state terminates; "
          "partial: asynchronous signal delivery into a blocked C call is not modelled (a stop takes effect at the next poll)",
-         "the stop is injected at every scheduling point of each scenario under seeded continuations, trace replayed by the Coq monitor, final observables compared; CLI interrupt handler exercised in-process",
-         "trusted: Coq kernel; no axioms; lock-step scheduler; " + CORR, "Rocq/Coq proof (invariant + termination from every reachable state) + stop injection at every scheduling point"),
+         "worker loop / stop polling / stop_all order translated from workers.py on every run and proved equal to Conc/Loops.v (TieLoops.v); the stop is injected at every scheduling point of each scenario under seeded continuations, trace replayed by the Coq monitor, final observables compared; "
+         "Ctrl-C (SIGINT) delivered to the real command line in a child process at random moments",
+         "trusted: Coq kernel; no axioms; lock-step scheduler; " + CORR, "Rocq/Coq proof (invariant + termination from every reachable state) + translation tie of the worker loops + stop injection at every scheduling point"),
  "C15": ("cli", "proof", "duration formatter: field decomposition/recomposition for all M>=0, %S rounding bound, %I = truncation, template parser accepts exactly well-formed templates; option/default/keyword tables extracted from cmdline.py and "
          "cmdline_util.py on every run and compared with the documented tables; partial: argparse itself is trusted, {timestamp} not compared, -E/-p/-C/-I/-F out of reach",
          "end-to-end: auditok.cmdline.main(argv) run in-process on files and stdin over random option vectors, stdout/exit status/files compared with the model rendering of split_model under the resolved parameters",
          "trusted: Coq kernel; " + REALS + " (only %S rounding); AST table extraction harness/py2coq/cli.py; " + CORR, "Rocq/Coq proof (formatter arithmetic) + table extraction + end-to-end correspondence"),
  "C16": ("region", "proof", "getitem = Python slice of the sample list for all bounds (option Z, negative, huge), whole samples, views through int()/round() with error bounds",
-         "Audio/Region.v written by hand from AudioRegion; tied by exhaustive small-scope correspondence (all bounds around the length, huge bounds, views on a float grid)",
-         "trusted: Coq kernel; " + REALS + " (views only); " + CORR, "Rocq/Coq proof (algebraic law vs py_slice) + exhaustive small-scope correspondence"),
+         "Audio/Region.v written by hand from AudioRegion; tied on every run by translation (group region: __getitem__ with _check_convert_index, seconds and milliseconds views, proved equal to Region.getitem / sec_bounds / ms_to_sec for all inputs: TieRegion.v) "
+         "and by exhaustive small-scope correspondence (all bounds around the length, huge bounds, views on a float grid, megabyte regions)",
+         "trusted: Coq kernel; " + REALS + " (views only); " + CORR, "Rocq/Coq proof (algebraic law vs py_slice) + translation tie + exhaustive small-scope correspondence"),
  "C17": ("region", "proof", "concat/repeat/join/silence byte laws; division: min(n,len) contiguous pieces of near-equal size covering the data; parameter mismatch and ill-formed data rejected; eq <-> all four fields",
-         "Audio/Region.v; tied by random operation sequences (expression trees over a pool with mixed parameters) and exhaustive division grids", "trusted: Coq kernel; " + REALS + " (make_silence only); " + CORR,
-         "Rocq/Coq proof (algebraic laws, fuelled loop with fuel never exhausted) + op-sequence correspondence"),
+         "Audio/Region.v; tied on every run by translation (groups algebra, silence: __add__, __mul__, __eq__, __len__, the parameter check and make_silence proved equal to Region.concat / repeat / region_eqb / len / make_silence for all regions: TieAlgebra.v, TieSilence.v) "
+         "and by random operation sequences (expression trees over a pool with mixed parameters), exhaustive division grids and multi-megabyte joins", "trusted: Coq kernel; " + REALS + " (make_silence only); " + CORR,
+         "Rocq/Coq proof (algebraic laws, fuelled loop with fuel never exhausted) + translation tie + op-sequence correspondence"),
  "C18": ("wavio", "proof", "wav header codec round trip for widths 1/2/4; load(skip,max_read) = slice including empty results; numpy layout; partial: wave module and file system exercised, not verified",
          "IO/Wav.v, Source.v, Pcm.v; the bytes auditok writes are compared with wav_encode, save/load round trips eager and lazy, skip/max_read grids", "trusted: Coq kernel; " + REALS + " (skip/max_read conversions); " + CORR,
          "Rocq/Coq proof (codec round trip, slicing law) + file-level correspondence"),
